@@ -10,7 +10,7 @@ from oracle import pauli, lc, groups
 from gen import members, sweep
 
 RULE = ("(i) exhaustive: all operator sets with m <= 2 operators on n = 2 qubits (identity included) against both graphs; "
-        "(ii) Hypothesis: n = 2..6, m = 1..n operators, arbitrary graph, three distributions -- uniform (mostly 'no layer'), "
+        "(ii) Hypothesis: n = 2..6, m = 1..n operators (a quarter of the lists padded with identity operators), arbitrary graph, three distributions -- uniform (mostly 'no layer'), "
         "planted (random subset of a random local-Clifford image of the graph's group: 'exists'), planted-then-corrupted; "
         "(iii) every stabilizer group for n <= 3 (quick) / n <= 4 (thorough) against EVERY graph on n vertices, and constructed "
         "members for n = 5, 6 against graphs of the same and of other LC classes. A case is one call of "
@@ -211,6 +211,12 @@ def strategy():
                 ops[k][which] ^= 1 << q
                 if ops[k] == [0, 0]:
                     ops[k] = [1 << q, 0]
+        # identity operators among the given ones (a list padded to n columns, or the product of dependent generators): the identity
+        # lies in every group, so it changes nothing about which layers work
+        pad = draw(st.sampled_from([0, 0, 0, 1, 2, 4]))
+        for _ in range(min(pad, n - len(ops))):
+            ops.insert(draw(st.integers(0, len(ops))), [0, 0])
+            kind = kind.split("+")[0] + "+identity-padding"
         return {"n": n, "gid": gid, "ops": ops, "distribution": kind}
     return cases()
 
